@@ -87,7 +87,28 @@ def assigned(stmts):
 # ------------------------------------------------------------- index rule --
 def guard_candidates(test):
     """[(var, direction, description)] from the conjuncts of the guard."""
-    conj = test.values if isinstance(test, ast.BoolOp) and isinstance(test.op, ast.And) else [test]
+    def normal(e):
+        """`not (a > b)` -> `a <= b` etc.; `not (A or B)` -> conjuncts not A, not B."""
+        if isinstance(e, ast.UnaryOp) and isinstance(e.op, ast.Not):
+            x = e.operand
+            if isinstance(x, ast.Compare) and len(x.ops) == 1:
+                flip = {ast.Gt: ast.LtE, ast.GtE: ast.Lt, ast.Lt: ast.GtE, ast.LtE: ast.Gt}
+                if type(x.ops[0]) in flip:
+                    return [ast.copy_location(ast.Compare(left=x.left, ops=[flip[type(x.ops[0])]()], comparators=x.comparators), e)]
+            if isinstance(x, ast.BoolOp) and isinstance(x.op, ast.Or):
+                out_ = []
+                for v in x.values:
+                    out_ += normal(ast.copy_location(ast.UnaryOp(op=ast.Not(), operand=v), e))
+                return out_
+            if isinstance(x, ast.UnaryOp) and isinstance(x.op, ast.Not):
+                return normal(x.operand)
+        if isinstance(e, ast.BoolOp) and isinstance(e.op, ast.And):
+            out_ = []
+            for v in e.values:
+                out_ += normal(v)
+            return out_
+        return [e]
+    conj = normal(test)
     out = []
     for c in conj:
         if isinstance(c, ast.Name):
